@@ -99,6 +99,9 @@ pub struct State {
 
     /// How deeply are the blocks nested that are currently being parsed?
     pub block_depth: usize,
+
+    /// How deeply are the (sub)expressions nested that are currently being parsed?
+    pub expression_depth: usize,
 }
 
 impl State {
@@ -113,6 +116,7 @@ impl State {
             ignore_next_error: false,
             anonymous_scope_index: 0,
             block_depth: 0,
+            expression_depth: 0,
         }
     }
 
